@@ -46,7 +46,9 @@ def gen_cases(tier, seed):
         if not nice:
             dt = float(dt * (1 + rng.uniform(0.01, 0.2)))      # off the knife-edge of ARZ's int(dt/10 ps) decisions
         out.append({"nice_dt": nice, "cls": "%s:%s" % (model, cls), "model": model, "shower": kind, "energy": E, "zv": -float(rng.uniform(5, 2500)),
-                    "N": N, "dt": dt, "offset": float(rng.uniform(-1e-6, 1e-6)), "t0_frac": float(rng.uniform(0.3, 0.7)),
+                    "N": N, "dt": dt,
+                    # absolute position of the window: microseconds away from t = 0, within a fraction of its own length of it, or starting at 0
+                    "offset": [float(rng.uniform(-1e-6, 1e-6)), float(rng.uniform(-0.6, 0.3) * N * dt), 0.0][int(rng.integers(0, 3))], "t0_frac": float(rng.uniform(0.3, 0.7)),
                     "t0_sub": float(rng.uniform(0.05, 0.95)), "dtheta": dth, "special": special, "R": float(10 ** rng.uniform(0, 4)),
                     "ice": ["antarctic", "greenland"][int(rng.integers(0, 2))]})
     return out
@@ -86,7 +88,13 @@ def run_case(case):
         psi = thc + 1e-3
 
     def run(times=ts, p=None, angle=psi, dist=R, t_0=t0):
-        return np.array(cls(times, p if p is not None else particle(E), angle, dist, ice, t_0).values)
+        snap = np.array(times, float)
+        sig = cls(times, p if p is not None else particle(E), angle, dist, ice, t_0)
+        vals = np.array(sig.values)
+        # the grid is the caller's: building and evaluating a pulse (two showers share it) must neither move it nor report another one
+        v.check(np.array_equal(np.asarray(times, float), snap), "building and evaluating a pulse leaves the caller's time grid unchanged", model=case["model"], shower=case["shower"])
+        v.check(np.array_equal(np.asarray(sig.times, float), snap), "the pulse is reported on the requested time grid", model=case["model"], shower=case["shower"])
+        return vals
 
     ref = run()
     sample = {"model": case["model"], "shower": case["shower"], "energy_GeV": E, "vertex_depth": zv, "N": N, "dt": dt,
